@@ -78,7 +78,16 @@ class CHECK(core.Check):
                "application and connection loss are not modelled"]
     TECHNIQUE = ("Lean 4 theorems over a two-party state machine with FIFO wires (invariant over all schedules, progress "
                  "under alternation) + differential correspondence against the real client and server under random schedules")
-    LEVEL_TEXT = "see Props/C31.lean"
+    LEVEL_TEXT = ("Proved on the model for every application (that yields at least the Content-Length it announces), every "
+                  "list of requests and EVERY schedule of client/server serviceAll calls: each response head written is "
+                  "delimited by Content-Length or chunking, never 'until close' (C31_every_response_framed); the items "
+                  "queued for one request parse back, however they are grouped on arrival, to exactly one response with "
+                  "that request's tag and body and nothing left over (C31_response_stream_roundtrip); at every moment the "
+                  "client's response queue is the expected responses of the first k requests, in order, each attributed to "
+                  "its own request (C31_responses_in_request_order, by a three-phase invariant over both parties and both "
+                  "wires); and after any prefix schedule followed by sum(yields+4) alternations all N responses have been "
+                  "delivered and the client is idle (C31_n_in_n_out_ordered, by a rank that no step increases and every "
+                  "client+server pair lowers).")
     LEVEL_NOTE = ("Trusted: Lean kernel; axioms propext, Classical.choice, Quot.sound; hand transcription of Patron.serviceAll, "
                   "Valet.serviceAll, Responder (as repaired by fixes/D17, D31b) validated by the correspondence runs; socket-pair "
                   "and DNS doubles; the kernel's TCP only in the loopback repetition.")
